@@ -17,7 +17,10 @@ PROP_AUDIT = {
     # 2.0 library spells the property 'encapsulates_by_ref'; I cannot confirm the 2.0 spelling offline,
     # so the property is neither generated nor judged (DESIGN section 8).
     ("2.0", "types", "network-traffic", "encapsulates_by_ref"): {"unmodelled": True},
-    # 2.0 marking-definition.created precision is not modelled (DESIGN section 8): treat as 'any'
+    # 2.0 marking-definition.created: generated with exactly three fractional digits (what the 2.0 text asks of
+    # 'created'), but the digit count of the output is not judged (DESIGN section 8: the library's handling
+    # of this one slot is deliberately irregular and I cannot settle the intended rule offline).
+    ("2.0", "types", "marking-definition", "created"): {"precision": "millisecond", "constraint": "exact", "digits_unjudged": True},
     # tlp value is a closed vocabulary
     ("2.0", "markings", "tlp", "tlp"): {"k": "enum", "values": ["white", "green", "amber", "red"]},
     ("2.1", "markings", "tlp", "tlp"): {"k": "enum", "values": ["white", "green", "amber", "red"]},
